@@ -168,7 +168,7 @@ impl Interp {
             return Ok(v.clone());
         }
         match n {
-            "print" | "size" | "type" | "copy" | "deep_copy" | "assert" | "assert_eq" | "assert_ne" => Ok(V::Native(Rc::new(NativeFn {
+            "print" | "size" | "type" | "copy" | "deep_copy" | "assert" | "assert_eq" | "assert_ne" | "mkhost" => Ok(V::Native(Rc::new(NativeFn {
                 name: n.to_string(),
                 recv: None,
             }))),
@@ -1207,6 +1207,10 @@ fn compound_op(ip: Rc<Interp>, op: Op, cur: V, r: V) -> Fut {
                 let _ = call_value(ip.clone(), f, vec![r.clone()], Some(cur.clone())).await?;
                 return Ok(cur.clone());
             }
+            if m.has_meta("@host") {
+                // every operation a host object does not implement is an error
+                return rt("compound assignment not implemented by host object");
+            }
         }
         if op == Op::Rem && cur.is_num() && matches!(r, V::Int(0)) {
             return Err(Ctl::Unmodelled("remainder by integer zero".into()));
@@ -1272,6 +1276,9 @@ pub fn compare_op(ip: Rc<Interp>, op: CmpOp, l: V, r: V) -> Fut {
                 if !matches!(op, CmpOp::Eq | CmpOp::Ne) {
                     return rt("comparison not implemented by object");
                 }
+            }
+            if m.has_meta("@host") {
+                return rt("comparison not implemented by host object");
             }
         }
         match op {
@@ -1407,6 +1414,11 @@ fn index_value(ip: Rc<Interp>, av: V, iv: V) -> Fut {
                 return call_value(ip.clone(), f, vec![iv], Some(av.clone())).await;
             }
         }
+        if let V::Map(m) = &av {
+            if m.has_meta("@host") {
+                return rt("index not implemented by host object");
+            }
+        }
         match (&av, &iv) {
             (V::List(l), V::Range(a, b, incl)) => {
                 let l = l.borrow();
@@ -1476,16 +1488,31 @@ fn access_value(ip: Rc<Interp>, av: V, k: &Name) -> Fut {
     Box::pin(async move {
         match &av {
             V::Map(m) => {
+                // @access overrides every '.' access
+                if let Some(f) = m.get_meta("@access") {
+                    return call_value(ip.clone(), f, vec![V::str(&k)], Some(av.clone())).await;
+                }
                 if let Some(v) = m.get(&V::str(&k)) {
                     return Ok(v);
+                }
+                if m.meta.borrow().is_none() {
+                    // plain maps fall back to the map module, then to the iterator module
+                    for module in ["map", "iterator"] {
+                        if crate::knative::has_method(module, &k) {
+                            return Ok(V::Native(Rc::new(NativeFn {
+                                name: format!("{module}.{k}"),
+                                recv: Some(av.clone()),
+                            })));
+                        }
+                    }
+                    if crate::knative::known_core_name("map", &k) || crate::knative::known_core_name("iterator", &k) {
+                        return Err(Ctl::Unmodelled(format!("map.{k}")));
+                    }
+                    return rt("key not found");
                 }
                 // @meta named entries
                 if let Some(v) = m.get_meta(&format!("@meta {k}")) {
                     return Ok(v);
-                }
-                // @access fallback
-                if let Some(f) = m.get_meta("@access") {
-                    return call_value(ip.clone(), f, vec![V::str(&k)], Some(av.clone())).await;
                 }
                 // @base chain
                 let mut cur = m.get_meta("@base");
@@ -1503,15 +1530,21 @@ fn access_value(ip: Rc<Interp>, av: V, k: &Name) -> Fut {
                     }
                     cur = b.get_meta("@base");
                 }
-                // core map module
-                if crate::knative::has_method("map", &k) {
-                    return Ok(V::Native(Rc::new(NativeFn {
-                        name: format!("map.{k}"),
-                        recv: Some(av.clone()),
-                    })));
+                // objects that are iterable get the iterator module
+                if m.has_meta("@iterator") || m.has_meta("@next") {
+                    if crate::knative::has_method("iterator", &k) {
+                        return Ok(V::Native(Rc::new(NativeFn {
+                            name: format!("iterator.{k}"),
+                            recv: Some(av.clone()),
+                        })));
+                    }
+                    if crate::knative::known_core_name("iterator", &k) {
+                        return Err(Ctl::Unmodelled(format!("iterator.{k}")));
+                    }
                 }
                 rt("key not found")
             }
+            V::Native(n) if n.name == "module:koto" && &*k == "unimplemented" => Ok(V::str("\u{2}unimplemented\u{2}")),
             V::Native(n) if n.name.starts_with("module:") => {
                 let module = &n.name[7..];
                 if crate::knative::has_method(module, &k) {
@@ -1769,6 +1802,9 @@ pub fn match_pattern<'a>(
                         .iter()
                         .map(|(k, val)| V::tuple(vec![k.clone(), val.clone()]))
                         .collect(),
+                    V::Map(m) if !(m.has_meta("@size") && m.has_meta("@index")) => {
+                        return Err(Ctl::Unmodelled("tuple pattern against an object without @size/@index".into()));
+                    }
                     V::Map(m) if m.has_meta("@size") && m.has_meta("@index") => {
                         let sz = call_value(ip.clone(), m.get_meta("@size").unwrap(), vec![], Some(v.clone())).await?;
                         let n = match sz {
@@ -2051,7 +2087,7 @@ pub fn make_iter(ip: Rc<Interp>, v: V) -> Pin<Box<dyn Future<Output = Result<Rc<
             V::Range(..) => return rt("unbounded range is not iterable"),
             V::Map(m) => {
                 if m.has_meta("@next") {
-                    return Err(Ctl::Unmodelled("@next iteration".into()));
+                    return Ok(Rc::new(IterObj { state: RefCell::new(IterState::MetaNext(v.clone())) }));
                 }
                 if let Some(f) = m.get_meta("@iterator") {
                     let r = call_value(ip.clone(), f, vec![], Some(v.clone())).await?;
@@ -2107,6 +2143,22 @@ pub fn iter_next(ip: Rc<Interp>, it: &Rc<IterObj>) -> Pin<Box<dyn Future<Output 
                     Err(e)
                 }
             };
+        }
+        let meta_next = {
+            let st = it.state.borrow();
+            match &*st {
+                IterState::MetaNext(o) => Some(o.clone()),
+                _ => None,
+            }
+        };
+        if let Some(o) = meta_next {
+            let V::Map(m) = &o else { unreachable!() };
+            let f = m.get_meta("@next").unwrap();
+            let r = call_value(ip.clone(), f, vec![], Some(o.clone())).await?;
+            return Ok(match r {
+                V::Null => None,
+                v => Some(v),
+            });
         }
         let adapt_parts = {
             let st = it.state.borrow();
@@ -2193,7 +2245,7 @@ pub fn iter_next(ip: Rc<Interp>, it: &Rc<IterObj>) -> Pin<Box<dyn Future<Output 
                     None
                 }
             }
-            IterState::Gen(_) | IterState::Adapt(..) => unreachable!(),
+            IterState::Gen(_) | IterState::Adapt(..) | IterState::MetaNext(_) => unreachable!(),
             IterState::Done => None,
         })
     })
